@@ -401,12 +401,13 @@ def normalize(stmts, value_returns=False):
     for i, s in enumerate(stmts):
         if isinstance(s, ast.If):
             s = copy.copy(s)
-            s.body = normalize(s.body, value_returns)
-            s.orelse = normalize(s.orelse, value_returns)
+            # (looked at before the arm is normalised: normalising strips a bare return that ends a statement list)
             ends = bool(s.body) and isinstance(s.body[-1], ast.Return) and s.body[-1].value is None
+            s.body = normalize(s.body[:-1] if ends and not value_returns else s.body, value_returns)
+            s.orelse = normalize(s.orelse, value_returns)
             if ends and not value_returns:
                 rest = normalize(stmts[i + 1:], value_returns)
-                s.body = s.body[:-1] or [ast.Pass()]
+                s.body = s.body or [ast.Pass()]
                 s.orelse = list(s.orelse) + rest
                 out.append(_unnegate(s))
                 return out
